@@ -30,6 +30,7 @@ import (
 	"github.com/miekg/dns"
 	"github.com/semihalev/sdns/internal/verifshim/vkit"
 	"github.com/semihalev/sdns/internal/verifshim/vtime"
+	"github.com/semihalev/sdns/middleware"
 )
 
 type vkShapeCase struct {
@@ -41,13 +42,14 @@ type vkShapeCase struct {
 	Sig    int    `json:"sig"`              // seconds until the RRSIG (over the A RRset, or over the SOA) expires; 0 = unsigned
 	SigTTL uint32 `json:"sigttl,omitempty"` // the RRSIG records' own header TTL (0 = same as the covered RRset)
 	N      uint32 `json:"n,omitempty"`      // negative shapes: TTL of an NSEC record in the authority section (0 = none)
+	Cut    int    `json:"cut,omitempty"`    // seconds of delegation lease left when upstream delivers (0 = unbounded); overrides the 5 s floor
 	Probe  int    `json:"probe"`            // seconds the clock is advanced before the probes
 	QType  uint16 `json:"qtype"`
 	result string
 }
 
 func (c vkShapeCase) String() string {
-	return fmt.Sprintf("%s a=%d c=%d soa=%d/min=%d sig=%d sigttl=%d nsec=%d probe@%ds", c.Shape, c.A, c.C, c.S, c.M, c.Sig, c.SigTTL, c.N, c.Probe)
+	return fmt.Sprintf("%s a=%d c=%d soa=%d/min=%d sig=%d sigttl=%d nsec=%d lease=%d probe@%ds", c.Shape, c.A, c.C, c.S, c.M, c.Sig, c.SigTTL, c.N, c.Cut, c.Probe)
 }
 
 func (c vkShapeCase) negative() bool {
@@ -244,8 +246,14 @@ func vkShapeRun(cs vkShapeCase) (viol string, outcome string) {
 	defer w.stop()
 	defer vtime.SetOffset(0)
 	pieces := map[string]*vkShapePiece{}
-	w.stub.answer = func(_ context.Context, req *dns.Msg) *dns.Msg {
+	w.stub.answer = func(ctx context.Context, req *dns.Msg) *dns.Msg {
 		now := vtime.Now()
+		if cs.Cut > 0 {
+			// the resolver folds the lease of the delegation chain into the response meta
+			if meta := middleware.ResponseMetaFrom(ctx); meta != nil {
+				meta.BoundCut(now.Add(time.Duration(cs.Cut) * time.Second))
+			}
+		}
 		var m *dns.Msg
 		switch strings.ToLower(req.Question[0].Name) {
 		case vkShName:
@@ -279,6 +287,9 @@ func vkShapeRun(cs vkShapeCase) (viol string, outcome string) {
 					pieces[k] = &vkShapePiece{}
 				}
 				pieces[k].at, pieces[k].life, pieces[k].seen = now, cs.pieceLife(k), true
+				if l := time.Duration(cs.Cut) * time.Second; cs.Cut > 0 && l < pieces[k].life {
+					pieces[k].life = l // the lease ends it, floor or not
+				}
 			}
 		}
 		return m
@@ -377,6 +388,11 @@ func TestVerifC04Shapes(t *testing.T) {
 								v.SigTTL = 2
 								variants = append(variants, v)
 							}
+							for _, cut := range []int{3, 9} {
+								v := base
+								v.Cut = cut
+								variants = append(variants, v)
+							}
 							if neg {
 								for _, n := range []uint32{2, 30} {
 									v := base
@@ -387,7 +403,7 @@ func TestVerifC04Shapes(t *testing.T) {
 							for _, base := range variants {
 								// probe on each side of every boundary the parameters define
 								seen := map[int]bool{}
-								for _, b := range []int{5, int(a), int(cn), int(s), int(m), sig, int(base.N)} {
+								for _, b := range []int{5, int(a), int(cn), int(s), int(m), sig, int(base.N), base.Cut} {
 									for _, p := range []int{b - 1, b + 1} {
 										if p >= 1 && !seen[p] {
 											seen[p] = true
